@@ -164,13 +164,13 @@ func (g *gen) doc(spec []string, n int) (lime.Document, lime.MediaType) {
 		d := lime.TextDocument(g.str())
 		return d, d.MediaType()
 	case "utext":
-		return lime.TextDocument(g.str()), lime.MediaType{Type: "image", Subtype: "x-unknown"}
+		return lime.TextDocument(g.str()), lime.MediaType{Type: "image", Subtype: "x-unKnown.Kind"}
 	case "json":
 		d := &lime.JsonDocument{"a": 1.5, "b": g.str(), "c": []interface{}{1.0, "two", nil}, "d": map[string]interface{}{"e": true}}
 		return d, d.MediaType()
 	case "ujson":
 		d := &lime.JsonDocument{"custom": g.str()}
-		return d, lime.MediaType{Type: "application", Subtype: "x-unknown", Suffix: "json"}
+		return d, lime.MediaType{Type: "application", Subtype: "vnd.Seed.chatState", Suffix: "json"}
 	case "ping":
 		d := &lime.Ping{}
 		return d, d.MediaType()
@@ -521,6 +521,8 @@ func shapeValue(s string) interface{} {
 		return nil
 	case "str":
 		return "zz"
+	case "empty":
+		return ""
 	case "num":
 		return 7.0
 	case "bool":
